@@ -32,10 +32,17 @@ def handle (op : String) (c i : Json) : Except String (Json × String) := do
           if got == v then none else some s!"signal {sg.name}: supplied {v} reads back {got}"
         let covered := supplied.flatMap fun (sg, _) => Spec.addrs (DC.specSig sg)
         let stray := (List.range (8 * f.size)).filter fun k => payloadBit bytes k && !covered.contains k
-        pure (match bad1, stray with
-          | b :: _, _ => "fail: " ++ b
-          | [], k :: _ => s!"fail: bit {k} belongs to no supplied signal but is set"
-          | [], [] => "ok")
+        -- ... and the implementation's own decoding of that payload gives the supplied values back
+        let decJ := J.keyD i "dec" Json.null
+        let bad2 := supplied.filterMap fun (sg, v) =>
+          match decJ.getObjVal? sg.name with
+          | .ok got => if got == DC.valJson sg v then none else some s!"signal {sg.name}: supplied {v}, the implementation decodes its own payload to {got.compress}"
+          | .error _ => some s!"signal {sg.name}: missing from the implementation's decoding of its own payload"
+        pure (match bad1, stray, bad2 with
+          | b :: _, _, _ => "fail: " ++ b
+          | [], k :: _, _ => s!"fail: bit {k} belongs to no supplied signal but is set"
+          | [], [], b :: _ => "fail: " ++ b
+          | [], [], [] => "ok")
     pure (m, s)
   | "decenc" =>
     let f ← DC.frame (← J.key c "f")
